@@ -49,7 +49,7 @@ func main() {
 		Plan: func(tier string, seed int64) []kit.Batch {
 			nb, n, v := 14, 400, 20
 			if tier == "thorough" {
-				nb, n, v = 48, 6000, 50
+				nb, n, v = 48, 20000, 50
 			}
 			var bs []kit.Batch
 			for i := 0; i < nb; i++ {
